@@ -711,13 +711,714 @@ def strip_targs_name(e):
     return strip_targs(cname(e))
 
 
+def single_defs(f):
+    """{var id: init tree} for locals with exactly one definition in the function."""
+    defs = {}
+    for b, i, e in f.events():
+        if e.get('k') == 'decl':
+            for v in e.get('vars', []):
+                defs.setdefault(v['id'], []).append(v.get('init'))
+        elif e.get('k') == 'asg' and isinstance(e.get('l'), dict) and e['l'].get('k') == 'var' and 'id' in e['l']:
+            defs.setdefault(e['l']['id'], []).append(None)
+        elif e.get('k') == 'incdec' and isinstance(e.get('e'), dict) and e['e'].get('k') == 'var' and 'id' in e['e']:
+            defs.setdefault(e['e']['id'], []).append(None)
+    return {k: v[0] for k, v in defs.items() if len(v) == 1 and v[0] is not None}
+
+
+def resolve(t, sd, depth=0):
+    """Strip wrappers, take the constant arm of conditionals, inline single-definition locals."""
+    while isinstance(t, dict) and depth < 20:
+        depth += 1
+        if t.get('k') == 'cast' or (t.get('k') == 'ctor' and len(t.get('args', [])) == 1):
+            t = unwrap(t)
+            continue
+        if t.get('k') == 'var' and 'cv' not in t and t.get('id') in sd:
+            t = sd[t['id']]
+            continue
+        if t.get('k') == 'cond':
+            c = cval(t['c'])
+            if c is not None:
+                t = t['a'] if c else t['b']
+                continue
+        break
+    return t
+
+
+def attack_kind(t, sd):
+    t = resolve(t, sd)
+    if isinstance(t, dict) and t.get('k') == 'call' and cname(t) in ATTACK_FN:
+        return ATTACK_FN[cname(t)], t
+    return None
+
+
+def piece_set(t, sd):
+    """Set of (colour, letter) of a pure piece-set expression, or None.  Colour is 'w'/'b', or
+    'enemy'/'own' relative to the runtime side to move for `isWhiteMove() ? X : Y` selections."""
+    t = resolve(t, sd)
+    if not isinstance(t, dict):
+        return None
+    if t.get('k') == 'bin' and t.get('op') == '|':
+        a, b = piece_set(t['l'], sd), piece_set(t['r'], sd)
+        return None if a is None or b is None else a | b
+    if t.get('k') == 'call' and cname(t).startswith('Position::pieceTypeBB'):
+        out = set()
+        for a in t.get('args', []):
+            r = resolve(a, sd)
+            v = cval(r)
+            if v is not None and colour_of(v):
+                out.add((colour_of(v), LETTER[(v - 1) % 6 + 1]))
+                continue
+            if isinstance(r, dict) and r.get('k') == 'cond':
+                c = unwrap(r['c'])
+                va, vb = cval(resolve(r['a'], sd)), cval(resolve(r['b'], sd))
+                if isinstance(c, dict) and c.get('k') == 'call' and cname(c) == 'Position::isWhiteMove' and va and vb and colour_of(va) and colour_of(vb) \
+                        and colour_of(va) != colour_of(vb) and (va - 1) % 6 == (vb - 1) % 6:
+                    out.add(('own' if colour_of(va) == 'w' else 'enemy', LETTER[(va - 1) % 6 + 1]))
+                    continue
+            return None
+        return out or None
+    return None
+
+
+PAIR = {'R': {'R', 'Q'}, 'B': {'B', 'Q'}, 'N': {'N'}, 'K': {'K'}, 'wP': {'P'}, 'bP': {'P'}}
+# whose pieces the attack sets of these functions are intersected with (relative to the template colour)
+PAIR_SIDE = {'MoveGen::sqAttacked': 'enemy', 'MoveGen::checkEvasions': 'enemy', 'MoveGen::pseudoLegalCapturesAndChecks': 'own',
+             'MoveGen::isLegal': 'enemy', 'MoveGen::removeIllegal': 'enemy'}
+PAIR_KINDS = {'MoveGen::sqAttacked': {'N', 'K', 'P', 'B', 'R'}, 'MoveGen::checkEvasions': {'N', 'P', 'B', 'R'}}
+
+
 def c3_pairing(fb, rep):
-    pass
+    clause = 'C01.3'
+    n = 0
+    for f in sorted(fb.funcs.values(), key=lambda x: x.key):
+        if not f.has_cfg or f.file not in ('lib/texellib/moveGen.cpp', 'lib/texellib/moveGen.hpp', 'lib/texellib/./moveGen.hpp'):
+            continue
+        ta = f.d.get('targs')
+        if f.d.get('pattern') is None and ta is None and any(g.d.get('pattern') == f.key for g in fb.funcs.values()):
+            continue        # the dependent pattern itself: its instantiations are analysed
+        wtm = True if ta == ['true'] else False if ta == ['false'] else None
+        sd = single_defs(f)
+        trees = [e for _, _, e in f.events()]
+        for bid, blk in f.blocks.items():
+            if bid not in f.dead and (blk.get('term') or {}).get('cond') is not None:
+                trees.append(blk['term']['cond'])
+        seen = set()
+        kinds = set()
+        for tr in trees:
+            for node in walk(tr):
+                if node.get('k') != 'bin' or node.get('op') != '&' or id(node) in seen:
+                    continue
+                seen.add(id(node))
+                for x, y in ((node['l'], node['r']), (node['r'], node['l'])):
+                    ak = attack_kind(x, sd)
+                    ps = piece_set(y, sd) if ak else None
+                    if not ak or ps is None:
+                        continue
+                    kind, call = ak
+                    n += 1
+                    letters = {l for _, l in ps}
+                    cols = {c for c, _ in ps}
+                    tag = '%s%s' % (f.sname.split('::')[-1], '' if wtm is None else '<white>' if wtm else '<black>')
+                    inst = '%s: %s intersected with %s' % (tag, cname(call).split('::')[-1], '+'.join(sorted('%s%s' % cl for cl in ps)))
+                    ok = letters == PAIR[kind] and len(cols) == 1
+                    col = next(iter(cols)) if len(cols) == 1 else None
+                    if ok and kind in ('wP', 'bP') and col in ('w', 'b'):
+                        ok = (kind == 'wP') == (col == 'b')     # squares a white pawn on sq attacks are where black pawns attack sq from
+                    side = PAIR_SIDE.get(f.sname)
+                    if ok and side and col in ('w', 'b') and wtm is not None:
+                        ok = (col == ('w' if wtm else 'b')) == (side == 'own')
+                    elif ok and side and col in ('own', 'enemy'):
+                        ok = col == side
+                    rep.ob(clause, 'K10 attack/piece pairing', inst, ok, '%s:%s' % (f.file, call.get('ln')), 'attack kind %s, piece set %s, expected types %s of the %s side' % (
+                        kind, sorted(ps), sorted(PAIR[kind]), side or 'same'), f.sname)
+                    if ok:
+                        kinds.add('P' if kind in ('wP', 'bP') else kind)
+        if f.sname in PAIR_KINDS and (wtm is not None):
+            rep.ob(clause, 'K13 exhaustiveness', '%s<%s> tests every attacker kind' % (f.sname.split('::')[-1], 'white' if wtm else 'black'), kinds == PAIR_KINDS[f.sname], f.where,
+                   'kinds %s, wanted %s' % (sorted(kinds), sorted(PAIR_KINDS[f.sname])), f.sname)
+    rep.floor(clause, 'attack-set / piece-set intersections', n, 20)
+    c3_promotions(fb, rep)
+    c3_simple_helpers(fb, rep)
+
+
+def c3_simple_helpers(fb, rep):
+    clause = 'C01.3'
+    for nm, want_from in (('MoveGen::addMovesByMask', 'sq0'), ('MoveGen::addPawnDoubleMovesByMask', '+delta')):
+        f = fb.find1(nm)
+        if rep.need(clause, f, nm) is None:
+            continue
+        sd = single_defs(f)
+        calls = [(b, i, e) for b, i, e in f.events() if e.get('k') == 'call' and cname(e) == 'MoveList::addMove']
+        rep.floor(clause, nm + ' emission calls', len(calls), 1)
+        for b, i, e in calls:
+            frm = resolve(e['args'][0], sd)
+            to = resolve(e['args'][1], sd)
+            src_ok = isinstance(to, dict) and to.get('k') == 'call' and cname(to) == 'BitBoard::extractSquare' and ctext(to['args'][0]) == 'mask'
+            if want_from == 'sq0':
+                ok = ctext(frm) == 'sq0'
+            else:
+                o = operands(frm)
+                ok = bool(o and o[0] == '+' and {ctext(resolve(o[1], sd)), ctext(resolve(o[2], sd))} == {ctext(to), 'delta'})
+            rep.ob(clause, 'K10 from/to agreement', '%s: target from the mask, origin %s, no promotion piece' % (nm.split('::')[-1], 'the given square' if want_from == 'sq0' else 'delta away'),
+                   ok and src_ok and cval(e['args'][2]) == 0, R.site(f, e), 'from %s, to %s' % (ctext(frm), ctext(to)), f.sname)
+
+
+def c3_promotions(fb, rep):
+    """addPawnMovesByMask: from = to + delta; promotion rank split; promotion pieces of the mover's colour."""
+    clause = 'C01.3'
+    insts = instantiations(fb, 'MoveGen::addPawnMovesByMask')
+    if len(insts) != 2:
+        rep.broken(clause, 'expected two instantiations of addPawnMovesByMask, found %d' % len(insts))
+        return
+    for wtm, f in insts:
+        tag = 'addPawnMovesByMask<%s>' % ('white' if wtm else 'black')
+        mine = 'w' if wtm else 'b'
+        params = {p['n']: p['id'] for p in f.d.get('params', [])}
+        always, under = set(), set()
+        n_emit = 0
+        prom_ids = set()
+        for b, i, e in f.events():
+            if e.get('k') != 'call' or cname(e) != 'MoveList::addMove':
+                continue
+            n_emit += 1
+            sd = single_defs(f)
+            frm = resolve(e['args'][0], sd)
+            to = resolve(e['args'][1], sd)
+            o = operands(frm)
+            ok_from = bool(o and o[0] == '+' and {ctext(resolve(o[1], sd)), ctext(resolve(o[2], sd))} == {ctext(to), 'delta'})
+            src_ok = isinstance(to, dict) and to.get('k') == 'call' and cname(to) == 'BitBoard::extractSquare'
+            pv = cval(e['args'][2])
+            src_var = strip_casts(to['args'][0]) if src_ok else None
+            src_id = src_var.get('id') if isinstance(src_var, dict) and src_var.get('k') == 'var' else None
+            want_id = params.get('mask') if not pv else 'promotion mask'
+            if pv and src_id is not None and src_id != params.get('mask'):
+                want_id = src_id
+                prom_ids.add(src_id)
+            rep.ob(clause, 'K10 from/to agreement', '%s: the %s move goes to a square of the %s mask and starts delta away from it' % (
+                tag, ('%s-promotion' % LETTER[(pv - 1) % 6 + 1]) if pv else 'plain', 'promotion' if pv else 'remaining'), ok_from and src_ok and src_id == want_id, R.site(f, e),
+                'from %s, to %s' % (ctext(frm), ctext(to)), f.sname)
+            guards = G.guards_of(f, set(f.blocks), b)
+            g_all = any('allPromotions' in g and not g.startswith('!') for g in guards)
+            if pv:
+                (under if g_all else always).add((colour_of(pv), LETTER[(pv - 1) % 6 + 1]))
+        rep.ob(clause, 'K11 constant agreement', '%s: queen and knight promotions always, rook and bishop under allPromotions, all of the mover\'s colour' % tag,
+               always == {(mine, 'Q'), (mine, 'N')} and under == {(mine, 'R'), (mine, 'B')}, f.where, 'always %s, under allPromotions %s' % (sorted(always), sorted(under)), f.sname)
+        rep.floor(clause, tag + ' emission calls', n_emit, 5)
+        # rank split: promotions exactly for targets on rank 1/8, everything else without promotion
+        atom_of = make_atom_of(wtm)
+        prom_id = sorted(prom_ids)[0] if len(prom_ids) == 1 else None
+        last = None
+        for b, i, e in f.events():
+            if e.get('k') == 'call' and cname(e) == 'MoveList::addMove':
+                last = (b, i, e)
+        if last is None or prom_id is None:
+            rep.broken(clause, tag + ': promotion split not found')
+            continue
+        b, i, e = last
+        stores = B.sym_stores(f, (b, i), {prom_id, params.get('mask')})
+        ok = True
+        detail = ''
+        for store, _ in stores:
+            pm = store.get(prom_id)
+            rest = store.get(params.get('mask'))
+            if pm is None or rest is None:
+                ok = False
+                detail = 'no straight-line definition'
+                break
+
+            def build(sem, t, _pm=pm, _rest=rest):
+                m = sem.col('var:mask', t)
+                r18 = sem.ones if t // 8 in (0, 7) else 0
+                return [('prom@%d' % t, sem.ev(_pm, t), m & r18), ('prom-c@%d' % t, m & r18, sem.ev(_pm, t)),
+                        ('rest@%d' % t, sem.ev(_rest, t), m & (r18 ^ sem.ones)), ('rest-c@%d' % t, m & (r18 ^ sem.ones), sem.ev(_rest, t))]
+            bad = [(l, w) for l, w in decide(build, atom_of) if w is not None]
+            if bad:
+                ok = False
+                detail = 'promotion mask %s, remaining mask %s; counterexample %s' % (ctext(pm), ctext(rest), bad[0][0])
+        rep.ob(clause, 'K12 mask algebra', '%s: targets on the first/last rank are emitted as promotions and only those' % tag, ok, f.where, detail, f.sname)
+
+
+KSQ = 'Position::getKingSq(Position::isWhiteMove())'
+
+
+def runtime_atom_of(t):
+    """Atoms for functions that take the colour from the position at run time."""
+    k = t.get('k')
+    if k == 'opaque':
+        return ('sq', 'opaque:%s' % t.get('n'))
+    if 'cv' in t:
+        return None
+    sh = as_shift(t)
+    if sh and sh[0] == '<<':
+        l, r = strip_casts(sh[1]), strip_casts(sh[2])
+        if isinstance(l, dict) and l.get('cv') == 1 and not (isinstance(r, dict) and 'cv' in r):
+            return ('sq', 'onehot:' + ctext(sh[2]))
+    if k == 'call':
+        n = cname(t)
+        if n == 'Position::occupiedBB':
+            return ('sq', 'occ')
+        if n.startswith('Position::pieceTypeBB'):
+            ps = piece_set(t, {})
+            if ps and len({c for c, _ in ps}) == 1:
+                return ('sq', 'pt:%s:%s' % (next(iter(ps))[0], ''.join(sorted(l for _, l in ps))))
+            return ('sq', 'call:' + ctext(t))
+        if n in ATTACK_FN:
+            a = [ctext(x) for x in t.get('args', [])]
+            if len(a) == 2 and a[1] == OCC:
+                a = a[:1]
+            return ('sq', 'atk:%s:%s' % (ATTACK_FN[n], ':'.join(a)))
+        return ('sq', 'call:' + ctext(t))
+    if k == 'var':
+        return ('sq', 'var:%s' % t.get('n'))
+    if k == 'mem':
+        return ('sq', 'mem:' + ctext(t))
+    return None
+
+
+def is_call(t, name, recv_param=None):
+    t = unwrap(t)
+    if not (isinstance(t, dict) and t.get('k') == 'call' and cname(t) == name):
+        return False
+    return True
+
+
+def classify_guard(g, side, move_param):
+    """Semantic tag of one guard atom of the legality tests (after inlining of locals)."""
+    g0 = strip_casts(g)
+    if isinstance(g0, dict) and g0.get('k') == 'var' and g0.get('vk') == 'param' and g0.get('t') == 'bool':
+        return ('incheck', side)
+    if is_call(g0, 'MoveGen::inCheck'):
+        return ('incheck', side)
+    o = operands(g0)
+    if o and o[0] in ('==', '!='):
+        ne = (o[0] == '!=') == side
+        for x, y in ((o[1], o[2]), (o[2], o[1])):
+            if is_call(x, 'Move::from', move_param) and ctext(unwrap(y)) == KSQ:
+                return ('notking', ne)
+            if is_call(x, 'Move::to', move_param) and ctext(unwrap(y)) == 'Position::getEpSquare()':
+                return ('notep', ne)
+        dx, dy = unwrap(o[1]), unwrap(o[2])
+        if is_call(dx, 'BitBoard::getDirection') and is_call(dy, 'BitBoard::getDirection'):
+            ax = [ctext(a) for a in dx['args']]
+            ay = [ctext(a) for a in dy['args']]
+            if ax[0] == ay[0] == KSQ and {ax[1], ay[1]} == {'Move::from()', 'Move::to()'} and (o[0] == '==') == side:
+                return ('samedir', True)
+    zt = zero_test(g0, side)
+    if zt and not zt[1]:
+        x = strip_casts(zt[0])
+        # conjunction chain: one conjunct is onehot(Move::to/from), the rest is the tested set
+        conj = []
+
+        def flat(t):
+            t = strip_casts(t)
+            oo = operands(t)
+            if oo and oo[0] == '&' and t.get('k') == 'bin':
+                flat(oo[1])
+                flat(oo[2])
+            else:
+                conj.append(t)
+        flat(x)
+        which = None
+        rest = []
+        for c in conj:
+            sh = as_shift(c)
+            if sh and sh[0] == '<<' and cval(sh[1]) == 1 and which is None and ctext(sh[2]) in ('Move::to()', 'Move::from()'):
+                which = 'to' if ctext(sh[2]) == 'Move::to()' else 'from'
+            else:
+                rest.append(c)
+        if which and rest:
+            tree = rest[0]
+            for c in rest[1:]:
+                tree = {'k': 'bin', 'op': '&', 'l': tree, 'r': c}
+            return ('offray', which, tree)
+    return None
 
 
 def c4_shortcuts(fb, rep):
-    pass
+    clause = 'C01.4'
+    n_short = 0
+    for nm in ('MoveGen::removeIllegal', 'MoveGen::isLegal'):
+        f = fb.find1(nm)
+        if rep.need(clause, f, nm) is None:
+            continue
+        short = nm.split('::')[-1]
+        mv = 'm'
+        exits = []
+        for b, i, e in f.events():
+            if nm.endswith('removeIllegal') and e.get('k') == 'asg' and isinstance(e.get('l'), dict) and e['l'].get('k') == 'var' and e['l'].get('t') == 'bool':
+                exits.append((b, i, e, e.get('r')))
+            elif nm.endswith('isLegal') and e.get('k') == 'ret' and e.get('e') is not None:
+                exits.append((b, i, e, e.get('e')))
+        rep.floor(clause, short + ' verdict sites', len(exits), 4 if short == 'removeIllegal' else 6)
+        for b, i, e, val in exits:
+            guards = G.guard_trees(f, set(f.blocks), b)
+            try:
+                stores = site_store(f, b, i, [val] + [g for g, _ in guards])
+            except Unsupported as ex:
+                rep.broken(clause, '%s: %s' % (short, ex))
+                continue
+            for store, _ in stores:
+                v = subst(val, store)
+                sg = [subst(g, store) for g, gs in guards]
+                tags = [classify_guard(g2, gs, mv) for g2, (g, gs) in zip(sg, guards)]
+                tags = [t for t in tags if t]
+                movers = {show(unwrap(n_.get('recv'))) for g2 in sg + [v] for n_ in walk(g2) if n_.get('k') == 'call' and cname(n_) in ('Move::from', 'Move::to')}
+                if len(movers) > 1:
+                    rep.ob(clause, 'K10 one move', '%s: the guards of a verdict all speak about the same move' % short, False, R.site(f, e), 'receivers: %s' % sorted(movers), f.sname)
+                incheck = [t[1] for t in tags if t[0] == 'incheck']
+                cv = cval(v)
+                neg = strip_not(v)
+                where = R.site(f, e)
+                # (1) the make-move path: verdict is !inCheck after make / unmake
+                if cv is None and is_call(neg[0], 'MoveGen::inCheck') and not neg[1]:
+                    mk = [c for _, _, c in f.events() if c.get('k') == 'call' and cname(c) in ('Position::makeMove', 'Position::makeMoveB')]
+                    rep.ob(clause, 'K2 full test', '%s: the verdict `%s` is computed from the position after making the move' % (short, show(val)),
+                           bool(mk), where, 'make-move calls in function: %d' % len(mk), f.sname)
+                    continue
+                n_short += 1
+                offrays = [t for t in tags if t[0] == 'offray']
+                base_ok = ('notking', True) in tags and ('notep', True) in tags
+                if cv == 0:
+                    need_which, need = 'to', 'incheck-reject'
+                    inst = '%s: a move is rejected without being made only when in check, not a king move, not en passant, and its target is off every king ray and not a checking knight' % short
+                    ok = base_ok and incheck == [True]
+                elif cv == 1 and ('samedir', True) in tags:
+                    inst = '%s: a move along the line through the king is accepted without being made only when not in check, not a king move, not en passant' % short
+                    rep.ob(clause, 'K4 shortcut guards', inst, base_ok and incheck == [False], where, 'guards: %s' % [t[:2] for t in tags], f.sname)
+                    continue
+                elif cv == 1:
+                    need_which, need = 'from', 'free-accept'
+                    inst = '%s: a move is accepted without being made only when not in check, not a king move, not en passant, and its origin is off every king ray' % short
+                    ok = base_ok and incheck == [False]
+                elif is_call(neg[0], 'MoveGen::sqAttacked') and not neg[1] and ('notking', False) in tags:
+                    call = unwrap(neg[0])
+                    args = call.get('args', [])
+                    inst = '%s: a king move is judged by the attack test of its target with the king lifted off the board' % short
+                    ok = incheck == [False] and len(args) == 3 and ctext(args[1]) == 'Move::to()'
+                    detail = 'args %s' % [ctext(a) for a in args]
+                    if ok:
+                        def build(sem, t, _occ=args[2]):
+                            E = sem.ev(_occ, t)
+                            return [('lifted@%d' % t, E, sem.col('occ', t) & (sem.col('onehot:Move::from()', t) ^ sem.ones)),
+                                    ('rest@%d' % t, sem.col('occ', t) & (sem.col('onehot:Move::from()', t) ^ sem.ones), E)]
+                        bad = [l for l, w in decide(build, runtime_atom_of) if w is not None]
+                        ok = not bad
+                        detail += '; occupancy %s%s' % (ctext(args[2]), ' counterexample ' + bad[0] if bad else '')
+                    rep.ob(clause, 'K4 shortcut guards', inst, ok, where, detail, f.sname)
+                    continue
+                else:
+                    rep.ob(clause, 'K13 known shortcut', '%s: every verdict not computed by making the move matches a justified shortcut' % short, False, where,
+                           'verdict %s under guards %s' % (show(val), [t[:2] for t in tags]), f.sname)
+                    continue
+                # ray coverage of the off-ray tests
+                sets = [t[2] for t in offrays if t[1] == need_which]
+                cover_ok = bool(sets)
+                detail = 'guards: %s; tested sets: %s' % ([t[:2] for t in tags if t[0] != 'offray'], [ctext(x) for x in sets])
+                if sets:
+                    def build(sem, t, _sets=sets, _need=need):
+                        U = 0
+                        for x in _sets:
+                            U |= sem.ev(x, t)
+                        req = sem.col('atk:R:' + KSQ, t) | sem.col('atk:B:' + KSQ, t)
+                        if _need == 'incheck-reject':
+                            req |= sem.col('atk:N:' + KSQ, t) & sem.col('pt:enemy:N', t)
+                        return [('cover@%d' % t, req, U)]
+                    bad = [(l, w) for l, w in decide(build, runtime_atom_of) if w is not None]
+                    cover_ok = not bad
+                    if bad:
+                        detail += '; not covered: %s' % fmt_witness(bad[0][1])
+                rep.ob(clause, 'K4 shortcut guards', inst, ok and cover_ok, where, detail, f.sname)
+    rep.floor(clause, 'legality shortcuts', n_short, 6)
+
+
+OKSQ = 'Position::getKingSq(!Position::isWhiteMove())'
+ROOK_DIRS = {1, -1, 8, -8}
+BISHOP_DIRS = {7, -7, 9, -9}
+
+
+def switch_body(f, sw, _depth=0):
+    """(blocks of the body of switch block sw, its exit block): the body ends at the target of its
+    own break statements (nested switches are stepped over)."""
+    body = set()
+    exits = set()
+    unl = [s_ for s_ in f.blocks[sw]['succ'] if (f.blocks[s_].get('label') or {}).get('k') not in ('case', 'default')]
+    st = [s_ for s_ in f.blocks[sw]['succ'] if s_ not in unl]
+    while st:
+        x = st.pop()
+        if x in body or x in unl or x == f.exit:
+            continue
+        body.add(x)
+        t = f.blocks[x].get('term') or {}
+        if t.get('c') == 'BreakStmt':
+            exits.update(f.blocks[x]['succ'])
+            continue
+        if t.get('c') == 'SwitchStmt' and x != sw and _depth < 4:
+            b2, e2 = switch_body(f, x, _depth + 1)
+            body |= b2
+            if e2 is not None:
+                st.append(e2)
+            continue
+        st.extend(f.blocks[x]['succ'])
+    ex = unl[0] if unl else (sorted(exits)[0] if len(exits) == 1 else None)
+    body.discard(ex)
+    # blocks reached only through the exit are not part of the body
+    if ex is not None:
+        keep = set()
+        st = [s_ for s_ in f.blocks[sw]['succ'] if s_ != ex]
+        while st:
+            x = st.pop()
+            if x in keep or x == ex or x == f.exit or x not in body:
+                continue
+            keep.add(x)
+            st.extend(f.blocks[x]['succ'])
+        body = keep
+    return body, ex
+
+
+def switch_labels(f, sw, b):
+    """Case labels (ints, or 'default') of the arms of switch block `sw` from which block b is reachable
+    inside the switch body."""
+    body, ex = switch_body(f, sw)
+    if b not in body:
+        return set()
+    out = set()
+    for s_ in f.blocks[sw]['succ']:
+        lb = f.blocks[s_].get('label') or {}
+        if lb.get('k') not in ('case', 'default'):
+            continue
+        seen = {s_}
+        st = [s_]
+        hit = s_ == b
+        while st and not hit:
+            x = st.pop()
+            for y in f.blocks[x]['succ']:
+                if y == b:
+                    hit = True
+                    break
+                if y in body and y not in seen:
+                    seen.add(y)
+                    st.append(y)
+        if hit:
+            out.add(lb.get('v') if lb.get('k') == 'case' else 'default')
+    return out
+
+
+def dominating_switches(f, b):
+    """Switch blocks whose body contains b, innermost first."""
+    doms = f.dominators().get(b, set())
+    out = []
+    for d in sorted(doms, reverse=True):
+        t = f.blocks[d].get('term') or {}
+        if t.get('c') == 'SwitchStmt' and d != b and b in switch_body(f, d)[0]:
+            out.append(d)
+    out.sort(key=lambda d: len(switch_body(f, d)[0]))
+    return out
+
+
+def cval2(t, env):
+    """cval with an environment keyed by canonical text, std::min/max and Square::asInt."""
+    if not isinstance(t, dict):
+        return None
+    key = ctext(t)
+    if key in env:
+        return env[key]
+    if 'cv' in t:
+        return t['cv']
+    k = t.get('k')
+    if k == 'cast' or (k == 'ctor' and len(t.get('args', [])) == 1):
+        return cval2(unwrap(t), env) if unwrap(t) is not t else None
+    if k == 'call':
+        n = cname(t)
+        if n in ('std::max', 'std::min') and len(t.get('args', [])) == 2:
+            a, b = cval2(t['args'][0], env), cval2(t['args'][1], env)
+            if a is None or b is None:
+                return None
+            return max(a, b) if n == 'std::max' else min(a, b)
+        if n == 'Square::asInt' and t.get('recv') is not None:
+            return cval2(t['recv'], env)
+    if k == 'un':
+        v = cval2(t['e'], env)
+        return None if v is None else {'-': -v, '+': v, '!': int(not v)}.get(t.get('op'))
+    o = operands(t)
+    if o:
+        a, b = cval2(o[1], env), cval2(o[2], env)
+        if a is None or b is None:
+            return None
+        return {'+': a + b, '-': a - b, '*': a * b}.get(o[0])
+    if k == 'cond':
+        c = cval2(t['c'], env)
+        return None if c is None else cval2(t['a'] if c else t['b'], env)
+    return None
 
 
 def c5_gives_check(fb, rep):
-    pass
+    clause = 'C01.5'
+    f = fb.find1('MoveGen::givesCheck')
+    if rep.need(clause, f, 'MoveGen::givesCheck') is None:
+        return
+    sd = single_defs(f)
+    # ---- (a) unbounded ray scans
+    scans = [(b, i, e) for b, i, e in f.events() if e.get('k') == 'call' and cname(e) == 'MoveGen::nextPiece']
+    others = [g for g in fb.funcs.values() if g.has_cfg and g.key != f.key and g.sname != 'MoveGen::nextPiece' and
+              any(e.get('k') == 'call' and cname(e) == 'MoveGen::nextPiece' for _, _, e in g.events())]
+    rep.ob(clause, 'K5 who-may-call', 'the unbounded ray scan nextPiece is used only by givesCheck', not others, f.where, 'other callers: %s' % [g.sname for g in others], f.sname)
+    rep.floor(clause, 'unbounded ray scans', len(scans), 8)
+    row_sites = []
+    for b, i, e in scans:
+        guards = G.guard_trees(f, set(f.blocks), b)
+        S = ctext(resolve(e['args'][1], sd))
+        Dv = strip_casts(e['args'][2])
+        Ddef = resolve(Dv, sd)
+        dname = Dv.get('n') if isinstance(Dv, dict) and Dv.get('k') == 'var' else None
+        ok_dir = False
+        how = ''
+
+        def dir_from(tree, want_from):
+            tree = resolve(tree, sd)
+            if not is_call(tree, 'BitBoard::getDirection'):
+                return False
+            a = [ctext(resolve(x, sd)) for x in tree['args']]
+            k_ = ctext(subst_defs(tree['args'][1], sd))
+            return a[0] == want_from and k_ == OKSQ
+        if dname and dir_from(Dv, S):
+            ok_dir, how = True, 'direction from the scan start to the enemy king'
+        elif dname:
+            for g, gs in guards:
+                o = operands(strip_casts(g))
+                if o and o[0] == '==' and gs:
+                    for x, y in ((o[1], o[2]), (o[2], o[1])):
+                        x0 = strip_casts(x)
+                        if isinstance(x0, dict) and x0.get('k') == 'var' and x0.get('n') == dname and dir_from(y, S):
+                            ok_dir, how = True, 'equal to the direction from the scan start to the enemy king'
+        # non-zero direction
+        nz = any(zero_test(g, gs) and isinstance(strip_casts(zero_test(g, gs)[0]), dict) and strip_casts(zero_test(g, gs)[0]).get('n') == dname and zero_test(g, gs)[1] for g, gs in guards)
+        labels = None
+        for sw in dominating_switches(f, b):
+            c = strip_casts(f.blocks[sw]['term'].get('cond'))
+            if isinstance(c, dict) and c.get('k') == 'var' and c.get('n') == dname:
+                labels = switch_labels(f, sw, b)
+                break
+        if labels and 'default' not in labels and 0 not in labels:
+            nz = True
+        inst = 'givesCheck: scan from %s along %s' % (S, dname)
+        if not ok_dir and labels and labels <= {1, -1} and dname and is_call(Ddef, 'BitBoard::getDirection'):
+            row_sites.append((b, i, e, labels))
+            rep.ob(clause, 'K4 scan guard', inst + ' runs in a non-zero direction', nz, R.site(f, e), 'case labels %s' % sorted(labels), f.sname)
+            continue
+        rep.ob(clause, 'K4 scan guard', inst + ' runs in a non-zero direction in which the enemy king is known to lie', ok_dir and nz, R.site(f, e),
+               '%s; non-zero: %s%s' % (how or 'direction variable is not tied to the scan start', nz, '' if labels is None else ', case labels %s' % sorted(labels, key=str)), f.sname)
+    # ---- (b) direction class / slider pairing
+    n_cmp = 0
+    per_switch = {}
+    seen_cmp = set()
+    for bid, blk in f.blocks.items():
+        if bid in f.dead:
+            continue
+        t = blk.get('term') or {}
+        c = t.get('cond')
+        if c is None or t.get('c') == 'SwitchStmt':
+            continue
+        sws = [sw for sw in dominating_switches(f, bid) if is_call(resolve(f.blocks[sw]['term'].get('cond'), sd), 'BitBoard::getDirection')]
+        if not sws:
+            continue
+        sw = sws[0]
+        labels = switch_labels(f, sw, bid)
+        if not labels:
+            continue
+        leaves = []
+
+        def flat(x):
+            x = strip_casts(x)
+            if isinstance(x, dict) and x.get('k') == 'bin' and x.get('op') in ('&&', '||'):
+                flat(x['l'])
+                flat(x['r'])
+            elif isinstance(x, dict):
+                leaves.append(x)
+        flat(c)
+        for cc in leaves:
+            o = operands(cc)
+            if not (o and o[0] == '=='):
+                continue
+            for x, y in ((o[1], o[2]), (o[2], o[1])):
+                x0 = strip_casts(x)
+                ps = _piece_const(y)
+                if not (isinstance(x0, dict) and x0.get('k') == 'var' and ps):
+                    continue
+                colour, letter = ps
+                key = (cc.get('ln') or t.get('ln'), x0.get('n'), colour, letter, tuple(sorted(labels, key=str)))
+                if key in seen_cmp:
+                    continue
+                seen_cmp.add(key)
+                n_cmp += 1
+                cls = 'rook' if labels <= ROOK_DIRS else 'bishop' if labels <= BISHOP_DIRS else 'other' if labels == {'default'} else 'mixed'
+                allowed = {'rook': {'Q', 'R'}, 'bishop': {'Q', 'B', 'P'}, 'other': {'N'}, 'mixed': set()}[cls]
+                per_switch.setdefault(sw, {}).setdefault(cls, set()).add(letter)
+                per_switch[sw].setdefault('labels:' + cls, set()).update(labels)
+                # colour: the moving piece is normalised to white, a revealed attacker is the mover's own piece
+                xdef = resolve(x0, sd)
+                if is_call(xdef, 'Piece::makeWhite'):
+                    col_ok = colour == 'w'
+                else:
+                    col_ok = colour == 'own'
+                rep.ob(clause, 'K10 direction/slider pairing', 'givesCheck: in the %s-direction arm %s of the switch at line %s, %s is compared with a %s %s' % (
+                    cls, sorted(labels, key=str), f.blocks[sw]['term'].get('ln'), x0.get('n'), colour, letter), letter in allowed and col_ok, '%s:%s' % (f.file, t.get('ln')),
+                    'allowed pieces %s' % sorted(allowed), f.sname)
+    rep.floor(clause, 'slider comparisons inside direction switches', n_cmp, 20)
+    for sw, d in sorted(per_switch.items()):
+        ln = f.blocks[sw]['term'].get('ln')
+        rl = d.get('labels:rook', set())
+        bl = d.get('labels:bishop', set())
+        rep.ob(clause, 'K13 exhaustiveness', 'givesCheck: the direction switch at line %s has a rook arm for queen+rook and a bishop arm for queen+bishop covering all four diagonals' % ln,
+               d.get('rook') == {'Q', 'R'} and {'Q', 'B'} <= d.get('bishop', set()) and bl == BISHOP_DIRS and (rl == ROOK_DIRS or rl == {1, -1}),
+               '%s:%s' % (f.file, ln), 'rook arm %s labels %s; bishop arm %s labels %s' % (sorted(d.get('rook', [])), sorted(rl), sorted(d.get('bishop', [])), sorted(bl)), f.sname)
+    # ---- (c) en-passant row case: both pawns leave the row, so the scans start outside the pawn pair
+    rep.floor(clause, 'en-passant row scans', len(row_sites), 2)
+    for b, i, e, labels in row_sites:
+        # the far-side scan in the same arm
+        far = [(b2, i2, e2) for b2, i2, e2 in f.events() if e2.get('k') == 'call' and cname(e2) == 'MoveGen::nextPieceSafe' and
+               any(switch_labels(f, sw, b2) == labels for sw in dominating_switches(f, b2)[:1]) and (b == b2 or G._reaches(f, b, b2))]
+        for L in sorted(labels):
+            for dx in (1, -1):
+                F = 28
+                env = {'Move::from()': F, 'epSq': F + dx, ctext(strip_casts(e['args'][2])): L}
+                dn = ctext(strip_casts(e['args'][2]))
+                near = cval2(subst_defs(e['args'][1], sd, keep=('epSq', dn)), env)
+                want_near = max(F, F + dx) if L > 0 else min(F, F + dx)
+                dirv = cval2(e['args'][2], env)
+                ok = near == want_near and dirv == L
+                detail = 'from=%d ep-pawn=%d king direction %+d: scan towards the king starts at %s (wanted %d)' % (F, F + dx, L, near, want_near)
+                okf = bool(far)
+                for b2, i2, e2 in far:
+                    fs = cval2(subst_defs(e2['args'][1], sd, keep=('epSq', dn)), env)
+                    fd = cval2(subst_defs(e2['args'][2], sd, keep=('epSq', dn)), env)
+                    want_far = min(F, F + dx) if L > 0 else max(F, F + dx)
+                    okf = okf and fs == want_far and fd == -L
+                    detail += '; scan away from the king starts at %s direction %s (wanted %d, %+d)' % (fs, fd, want_far, -L)
+                rep.ob(clause, 'K12 finite evaluation', 'givesCheck en-passant row case, king direction %+d, captured pawn %s of the capturing pawn: both scans start outside the pawn pair' % (
+                    L, 'right' if dx > 0 else 'left'), ok and okf, R.site(f, e), detail, f.sname)
+
+
+def subst_defs(t, sd, keep=(), depth=0):
+    """Inline single-definition locals everywhere in a tree (except the names in `keep`)."""
+    if isinstance(t, list):
+        return [subst_defs(x, sd, keep, depth) for x in t]
+    if not isinstance(t, dict):
+        return t
+    if t.get('k') == 'var' and 'cv' not in t and t.get('id') in sd and t.get('n') not in keep and depth < 12:
+        return subst_defs(sd[t['id']], sd, keep, depth + 1)
+    return {k: (subst_defs(v, sd, keep, depth) if isinstance(v, (dict, list)) else v) for k, v in t.items()}
+
+
+def _piece_const(t):
+    """('w'|'b', letter) of a piece constant, ('own', letter) for `wtm ? W : B` selections."""
+    t = strip_casts(t)
+    v = cval(t)
+    if v is not None and colour_of(v):
+        return colour_of(v), LETTER[(v - 1) % 6 + 1]
+    if isinstance(t, dict) and t.get('k') == 'cond':
+        va, vb = cval(t['a']), cval(t['b'])
+        if va and vb and colour_of(va) == 'w' and colour_of(vb) == 'b' and (va - 1) % 6 == (vb - 1) % 6:
+            return 'own', LETTER[(va - 1) % 6 + 1]
+        if va and vb and colour_of(va) == 'b' and colour_of(vb) == 'w' and (va - 1) % 6 == (vb - 1) % 6:
+            return 'enemy', LETTER[(va - 1) % 6 + 1]
+    return None
